@@ -6,6 +6,7 @@ import (
 	"strconv"
 
 	"github.com/atlassian/escalator/pkg/cloudprovider/aws"
+	v1 "k8s.io/api/core/v1"
 )
 
 func init() {
@@ -24,6 +25,9 @@ type twoCfg struct {
 	defaultA         bool
 	faultsA          bool // symbolic non-fatal faults in A
 	emptyA           bool // A has no pods either
+	emptyB           bool // B has no nodes and no pods
+	podOnNodeA       bool // A's pod may sit on one of A's nodes (non-empty nodes)
+	affinityFormsB   bool // B's pod may select B through required node affinity (plus a NotIn on A's value)
 	classesA         []int
 }
 
@@ -50,16 +54,36 @@ func buildTwo(c twoCfg) (*vWorld, int, int) {
 	ob.MinNodes, ob.MaxNodes = 0, c.nB+3
 	b := w.addGroup(ob, 0, int64(c.nB)+3, 0)
 	w.symNodes(c.pa, a, c.nA, c.classesA, false, []int{0}, false)
-	w.symNodes("B.", b, c.nB, []int{tcNone, tcEsc, tcForce}, false, []int{0}, false)
+	if !c.emptyB {
+		w.symNodes("B.", b, c.nB, []int{tcNone, tcEsc, tcForce}, false, []int{0}, false)
+	}
 	// pods: one per group, pending, symbolic request
 	if !c.emptyA {
-		w.symPods(c.pa, a, 1, 1, false, -3*w.cpuPerNode, false)
+		if c.podOnNodeA && c.nA > 0 {
+			// the pod sits on A's first node, or is unscheduled
+			node := verifChoice(c.pa+"p0.node", 2) - 1
+			w.addPod(a, node, false, verifInt(c.pa+"p0.cpu", 0, 3*w.cpuPerNode), 1<<20, node < 0)
+		} else {
+			w.symPods(c.pa, a, 1, 1, false, -3*w.cpuPerNode, false)
+		}
 	}
 	if c.defaultA && !c.emptyA {
 		// pods of the default group carry no selector
 		w.pods[len(w.pods)-1].obj.Spec.NodeSelector = nil
 	}
-	w.symPods("B.", b, 1, 1, false, -3*w.cpuPerNode, false)
+	if !c.emptyB {
+		w.symPods("B.", b, 1, 1, false, -3*w.cpuPerNode, false)
+		if c.affinityFormsB && verifChoice("B.p0.viaAffinity", 2) == 1 {
+			// select B through required node affinity and explicitly exclude A's value
+			p := w.pods[len(w.pods)-1].obj
+			p.Spec.NodeSelector = nil
+			p.Spec.Affinity = &v1.Affinity{NodeAffinity: &v1.NodeAffinity{RequiredDuringSchedulingIgnoredDuringExecution: &v1.NodeSelector{
+				NodeSelectorTerms: []v1.NodeSelectorTerm{{MatchExpressions: []v1.NodeSelectorRequirement{
+					{Key: ob.LabelKey, Operator: v1.NodeSelectorOpNotIn, Values: []string{oa.LabelValue}},
+					{Key: ob.LabelKey, Operator: v1.NodeSelectorOpIn, Values: []string{ob.LabelValue}},
+				}}}}}}
+		}
+	}
 	if c.faultsA && c.nA > 0 {
 		// zero-capacity nodes make the percentage computation fail for A
 		if verifChoice(c.pa+"zeroAllocatable", 2) == 1 {
@@ -131,7 +155,7 @@ func assertSameCalls(id string, x, y []aws.VerifCall) {
 func VerifHarness_C11() {
 	nA, nB, global, menu := verifShape(0), verifShape(1), verifShape(2), verifShape(3)
 	classes := [][]int{{tcNone, tcEsc}, {tcNone, tcEsc, tcForce}}[menu]
-	cfg := twoCfg{pa: "A.", nA: nA, nB: nB, trackers: true, classesA: classes}
+	cfg := twoCfg{pa: "A.", nA: nA, nB: nB, trackers: true, classesA: classes, podOnNodeA: true}
 	cfg.dryA, cfg.dryGlobal = global == 0, global == 1
 	w1, a1, b1 := buildTwo(cfg)
 	verifFreezeClock(w1.base+1, 0)
@@ -174,39 +198,38 @@ func VerifHarness_C11() {
 func VerifHarness_C12() {
 	nA, nB, def := verifShape(0), verifShape(1), verifShape(2)
 	classes := []int{tcNone, tcEsc, tcForce}
-	c1 := twoCfg{pa: "A.", nA: nA, nB: nB, classesA: classes, defaultA: def == 1, faultsA: true}
-	// reference run: A is an empty group (no nodes, no pods: processed, nothing to do).
-	// If B is acted on identically whatever A looks like and when A is empty, any two
-	// worlds differing only inside A give the same actions on B.
-	c2 := twoCfg{pa: "A0.", nA: 0, nB: nB, classesA: classes, defaultA: def == 1, emptyA: true}
+	c1 := twoCfg{pa: "A.", nA: nA, nB: nB, classesA: classes, defaultA: def == 1, faultsA: true, affinityFormsB: true}
+	// reference runs: one with A empty (no nodes, no pods: processed, nothing to do), one with
+	// B empty. If B is acted on identically whatever A looks like and when A is empty, any two
+	// worlds differing only inside A give the same actions on B (and symmetrically for A).
+	c2 := twoCfg{pa: "A0.", nA: 0, nB: nB, classesA: classes, defaultA: def == 1, emptyA: true, affinityFormsB: true}
+	c3 := c1
+	c3.emptyB = true
 	w1, a1, b1 := buildTwo(c1)
 	verifFreezeClock(w1.base+1, 0)
 	err1 := w1.ctrl.RunOnce()
 	w2, _, b2 := buildTwo(c2)
 	err2 := w2.ctrl.RunOnce()
+	w3, a3, _ := buildTwo(c3)
+	err3 := w3.ctrl.RunOnce()
 	verifUnfreezeClock()
-	verifAssert("C12.scan-completes", err1 == nil && err2 == nil)
+	verifAssert("C12.scan-completes", err1 == nil && err2 == nil && err3 == nil)
 	// every journalled call targets a node or ASG of a configured group
-	for _, e := range w1.J.Calls {
-		if !isMutation(e.Kind) {
-			continue
-		}
+	{
 		n := 0
 		for g := range w1.groups {
-			for _, c := range w1.groupCalls(g, 0) {
-				_ = c
-				n++
-			}
+			n += len(w1.groupCalls(g, 0))
 		}
 		verifAssert("C12.every-call-attributable", n == w1.mutations(0))
-		break
 	}
 	jb1, jb2 := w1.groupCalls(b1, 0), w2.groupCalls(b2, 0)
 	assertSameCalls("C12.other-group-unaffected", jb1, jb2)
+	ja1, ja3 := w1.groupCalls(a1, 0), w3.groupCalls(a3, 0)
+	assertSameCalls("C12.first-group-unaffected-by-later-group", ja1, ja3)
 	if len(jb1) > 0 {
 		verifReach("C12.b-acted")
 	}
-	ja := w1.groupCalls(a1, 0)
+	ja := ja1
 	if len(ja) > 0 {
 		verifReach("C12.a-acted")
 	}
